@@ -256,7 +256,8 @@ func bvSplit(r *Rng, v uint64, k int) []uint64 {
 }
 
 // common part of a shape: inputs (with at most one issuance), outputs conserving every asset, fee last
-func bvGenCommon(r *Rng, nIn, maxOut int, v0 bool) *bvShape {
+// forceReiss: a reissuance whose asset is also spent by another input of the same transaction
+func bvGenCommon(r *Rng, nIn, maxOut int, v0 bool, forceReiss bool) *bvShape {
 	sh := &bvShape{Seed: r.U64() >> 1}
 	nAssets := 1 + r.Intn(3)
 	for i := 0; i < nIn; i++ {
@@ -269,17 +270,29 @@ func bvGenCommon(r *Rng, nIn, maxOut int, v0 bool) *bvShape {
 	if sh.Ins[0].Value < 3 {
 		sh.Ins[0].Value += 3
 	}
-	if r.Chance(35) {
+	if forceReiss || r.Chance(35) {
 		i := nIn - 1
 		if r.Chance(40) {
 			i = r.Intn(nIn)
 		}
-		if r.Chance(30) && i > 0 {
+		if forceReiss && i == 0 {
+			i = 1 + r.Intn(nIn-1)
+		}
+		if (forceReiss || r.Chance(30)) && i > 0 {
 			sh.Ins[i].Iss = 2
 			sh.Ins[i].Conf = true
 			sh.Ins[i].Asset = 200 + i
 			sh.Ins[i].Value = uint64(1 + r.Intn(3))
 			sh.Ins[i].IssValue = bvRandValue(r)
+			// the reissued asset may already exist and be spent next to its reissuance
+			if nIn >= 3 && (forceReiss || r.Chance(40)) {
+				j := 1 + r.Intn(nIn-1)
+				for j == i {
+					j = 1 + r.Intn(nIn-1)
+				}
+				sh.Ins[j].Asset = 100 + i
+				sh.Ins[j].Conf = forceReiss || r.Chance(70)
+			}
 		} else {
 			sh.Ins[i].Iss = 1
 			sh.Ins[i].IssValue = bvRandValue(r)
@@ -342,10 +355,62 @@ func bvMin(a, b int) int {
 	return b
 }
 
+// three or four parties, each with an input of its own (confidential more often than not) and at
+// least one output of the same asset to blind: exchanges that run to completion
+func bvGenV2Multi(r *Rng) *bvShape {
+	nPar := r.Pick(3, 3, 4)
+	sh := &bvShape{Seed: r.U64() >> 1}
+	for k := 0; k < nPar; k++ {
+		a := r.Intn(3)
+		if k == 0 {
+			a = 0
+		}
+		v := bvRandValue(r)
+		if v < 4 {
+			v += 4
+		}
+		sh.Ins = append(sh.Ins, bvIn{Conf: r.Chance(65), Asset: a, Value: v})
+	}
+	fee := uint64(1 + r.Intn(2))
+	extra := r.Intn(nPar + 1) // this party (if any) gets two outputs
+	sh.Parties = make([]bvParty, nPar)
+	for k := 0; k < nPar; k++ {
+		v := sh.Ins[k].Value
+		if k == 0 {
+			v -= fee
+		}
+		m := 1
+		if k == extra {
+			m = 2
+		}
+		for _, x := range bvSplit(r, v, m) {
+			sh.Parties[k].Outs = append(sh.Parties[k].Outs, uint32(len(sh.Outs)))
+			sh.Outs = append(sh.Outs, bvOut{Asset: sh.Ins[k].Asset, Value: x, Blind: true, BlinderIdx: uint32(k)})
+		}
+	}
+	sh.Outs = append(sh.Outs, bvOut{Asset: 0, Value: fee, Fee: true})
+	ownAllExplicit := r.Chance(30)
+	for k := 0; k < nPar; k++ {
+		for i := 0; i < nPar; i++ {
+			if i == k || (ownAllExplicit && !sh.Ins[i].Conf) {
+				sh.Parties[k].Own = append(sh.Parties[k].Own, uint32(i))
+			}
+		}
+	}
+	for i := nPar - 1; i > 0; i-- {
+		j := r.Intn(i + 1)
+		sh.Parties[i], sh.Parties[j] = sh.Parties[j], sh.Parties[i]
+	}
+	return sh
+}
+
 func bvGenV2Shape(r *Rng) *bvShape {
+	if r.Chance(30) {
+		return bvGenV2Multi(r)
+	}
 	nPar := r.Pick(1, 1, 1, 2, 2, 3)
 	nIn := nPar + r.Intn(6-nPar)
-	sh := bvGenCommon(r, nIn, 5, false)
+	sh := bvGenCommon(r, nIn, 5, false, false)
 	// strict owner of every input
 	owner := make([]int, nIn)
 	perm := make([]int, nIn)
@@ -505,16 +570,24 @@ func bvGenV2Shape(r *Rng) *bvShape {
 
 func bvGenV0Shape(r *Rng) *bvShape {
 	nIn := 1 + r.Intn(5)
-	sh := bvGenCommon(r, nIn, 5, true)
+	force := r.Chance(18) // blinded reissuance of an asset that is spent in the same transaction
+	if force && nIn < 3 {
+		nIn = 3 + r.Intn(2)
+	}
+	sh := bvGenCommon(r, nIn, 5, true, force)
 	for i := range sh.Ins {
 		sh.Ins[i].IssBlinded = false
 	}
-	sh.IssKeys = r.Chance(50)
+	sh.IssKeys = force || r.Chance(60)
 	if r.Chance(20) {
 		sh.Ctor0 = 1
 	}
 	n := len(sh.Outs) - 1 // fee is last
-	switch c := r.Intn(100); {
+	c := r.Intn(100)
+	if force {
+		c = r.Intn(75) // a request that can succeed
+	}
+	switch {
 	case c < 60: // every spendable output
 		for j := 0; j < n; j++ {
 			sh.Outs[j].Blind = true
